@@ -146,12 +146,16 @@ template<class A, class B>
 void assign(sink& out, std::vector<A> const& as, std::vector<B> const& bs)
 {
     auto one = [&](char const* opn, auto wop, auto bop, bool needb) {
+        bool is_shift = std::string(opn) == "shl" || std::string(opn) == "shr";
         int id = add_inst(out, ev("Inst").str("kind", "NtAssign").str("op", opn).str("nest", nest<A>::name).raw("lt", ty<A>()).raw("rt", ty<B>())
                                        .raw("wt", ty<A>()).raw("bt", ty<A>()));
         for (A a : as) {
             for (B b : bs) {
                 if ((std::string(opn) == "div" || std::string(opn) == "mod") && b == 0) {
                     continue;
+                }
+                if (is_shift && (b < 0 || static_cast<u128>(b) >= sizeof(decltype(+a)) * 8)) {
+                    continue;      // out-of-range counts are undefined for the bare expression too
                 }
                 A wafter{}, wret{}, bafter{};
                 auto wo = guarded([&] {
@@ -180,6 +184,16 @@ void assign(sink& out, std::vector<A> const& as, std::vector<B> const& bs)
     one("sub", [](auto& x, auto y) { return x -= y; }, [](A& x, B y) { x -= y; }, true);
     one("mul", [](auto& x, auto y) { return x *= y; }, [](A& x, B y) { x *= y; }, true);
     one("div", [](auto& x, auto y) { return x /= y; }, [](A& x, B y) { x /= y; }, true);
+    if constexpr (requires(W<A>& x, W<B> y) { x %= y; x &= y; x |= y; x ^= y; }) {
+        one("mod", [](auto& x, auto y) { return x %= y; }, [](A& x, B y) { x %= y; }, true);
+        one("and", [](auto& x, auto y) { return x &= y; }, [](A& x, B y) { x &= y; }, true);
+        one("or", [](auto& x, auto y) { return x |= y; }, [](A& x, B y) { x |= y; }, true);
+        one("xor", [](auto& x, auto y) { return x ^= y; }, [](A& x, B y) { x ^= y; }, true);
+    }
+    if constexpr (requires(W<A>& x, W<B> y) { x <<= y; x >>= y; }) {
+        one("shl", [](auto& x, auto y) { return x <<= y; }, [](A& x, B y) { x <<= y; }, true);
+        one("shr", [](auto& x, auto y) { return x >>= y; }, [](A& x, B y) { x >>= y; }, true);
+    }
 #if NEST == 0 || NEST == 1      // ++/-- do not compile for wrappers that contain rounding_integer<_, native_rounding_tag>
     if constexpr (requires(W<A>& x) { ++x; --x; }) {
         one("preinc", [](auto& x, auto) { return ++x; }, [](A& x, B) { ++x; }, false);
